@@ -106,6 +106,14 @@ def families(tier, seed):
     return fams
 
 
+def _twin_always_solvable():
+    import Geometry3D.utils.solver as sv
+    sv.Solution.__bool__ = lambda self: True
+
+
+TWINS = {'Solution.__bool__ always True': (r'^solve/1x2/-$', _twin_always_solvable)}
+
+
 META = dict(
     title='solve returns genuine solutions',
     level_text=('Bounded symbolic model checking of the real gaussian_elimination/Solution code: every entry of the augmented matrix is a '
